@@ -123,9 +123,11 @@ func gen(t *rapid.T) Case {
 	// capacities: nothing fits, less than one typical blob, one blob, everything (with slack for extended streams)
 	c.MemMax = rapid.SampledFrom([]int{0, len(c.Blobs[nb-1]) / 2, len(c.Blobs[nb-1]) + 1, total + 8, 4*total + 4096}).Draw(t, "memmax")
 	c.Retries = rapid.IntRange(1, 3).Draw(t, "retries")
-	kinds := []string{"upload", "upload", "create", "write", "refresh", "refresh", "refresh", "refresh", "drain", "drain", "expire", "delete", "reopen"}
-	n := rapid.IntRange(1, 14).Draw(t, "nops")
-	for i := 0; i < n; i++ {
+	kinds := []string{"upload", "upload", "create", "write", "refresh", "refresh", "refresh", "delete", "reopen"}
+	if c.Mem {
+		kinds = []string{"upload", "create", "write", "refresh", "refresh", "refresh", "refresh", "refresh", "drain", "drain", "drain", "drain", "expire", "expire", "delete", "reopen"}
+	}
+	c.Ops = rapid.SliceOfN(rapid.Custom(func(t *rapid.T) Op {
 		op := Op{Kind: rapid.SampledFrom(kinds).Draw(t, "kind"), Name: rapid.IntRange(0, nb-1).Draw(t, "name")}
 		switch op.Kind {
 		case "upload", "create", "write":
@@ -137,8 +139,8 @@ func gen(t *rapid.T) Case {
 		case "drain":
 			op.Steps = rapid.IntRange(1, 4).Draw(t, "steps")
 		}
-		c.Ops = append(c.Ops, op)
-	}
+		return op
+	}), 1, 14).Draw(t, "ops")
 	return c
 }
 
